@@ -140,7 +140,11 @@ func (g *gen) typ(depth int) *sg.TypeSpec {
 		}
 		np := g.pick(3, "npat")
 		for i := 0; i < np; i++ {
-			t.Patterns = append(t.Patterns, patternPool[g.pick(len(patternPool), "pat")])
+			if g.pick(2, "patgrammar") == 0 {
+				t.Patterns = append(t.Patterns, vt.GenPattern(g.pick, 2))
+			} else {
+				t.Patterns = append(t.Patterns, patternPool[g.pick(len(patternPool), "pat")])
+			}
 		}
 		if np > 0 && g.pick(3, "pmsg") == 1 {
 			t.PatMsg = "custom pattern message"
@@ -255,6 +259,10 @@ func candidates(g *gen, t *sg.TypeSpec) []string {
 			}
 			out = append(out, "9223372036854775807", "9223372036854775808", "-9223372036854775808", "-9223372036854775809", "18446744073709551615", "18446744073709551616", "99999999999999999999")
 		case "string":
+			if len(sp.Patterns) > 0 {
+				// small-scope exhaustive: every string up to length 3 over the alphabet of the pattern grammar
+				out = append(out, vt.SmallStrings("abcx", 3)...)
+			}
 			for _, iv := range sp.Lengths {
 				for _, n := range []*big.Int{new(big.Int).Sub(iv.Lo, one), iv.Lo, iv.Hi, new(big.Int).Add(iv.Hi, one)} {
 					if n.Sign() >= 0 && n.Cmp(big.NewInt(12)) < 0 {
